@@ -762,8 +762,17 @@ func TestVerifC13Zone(t *testing.T) {
 			capped = true
 			break
 		}
+		tc := time.Now()
 		r := w.run(cs)
 		c.Add("cases", 1)
+		if d := time.Since(tc); d > 8*time.Second {
+			c.Add("slow_cases", 1)
+			fo := "-"
+			if r.Follow != nil {
+				fo = fmt.Sprintf("%s/%v", r.Follow.outcome(), r.Follow.Elapsed.Round(time.Millisecond))
+			}
+			c.Note(fmt.Sprintf("slow case %s took %v: first %s in %v (settled %v), follow-up %s, disturbed=%v", cs, d.Round(time.Millisecond), r.First.outcome(), r.First.Elapsed.Round(time.Millisecond), r.First.Settled, fo, r.Disturbed))
+		}
 		if len(r.Unscript) > 0 {
 			sort.Strings(r.Unscript)
 			c.HarnessError(fmt.Sprintf("queries reached a scripted server without hitting a script (%s): %v", cs, r.Unscript))
